@@ -11,6 +11,19 @@ import BitstringModel.Proofs.C02Ieee
 namespace BM.C02
 open BM
 
+/-! ### unsigned (property: "MSB-first … interpreting them returns the value") -/
+
+/-- Encoding an in-range unsigned value on `len` bits and reading it back is the identity. -/
+theorem bitsToNat_natToBits_range (len n : Nat) (h : n < 2 ^ len) : bitsToNat (natToBits len n) = n := by
+  exact bitsToNat_natToBits len n h
+
+/-- Conversely every pattern is the encoding of the unsigned value it reads as, which is below `2^len`. -/
+theorem natToBits_bitsToNat_pattern (b : Bits) : natToBits b.length (bitsToNat b) = b ∧ bitsToNat b < 2 ^ b.length := by
+  exact ⟨natToBits_bitsToNat b, bitsToNat_lt b⟩
+
+theorem natToBits_length_eq (len n : Nat) : (natToBits len n).length = len := by
+  exact natToBits_length len n
+
 /-! ### two's complement (property: "MSB-first two's complement … interpreting them returns the value") -/
 
 /-- Encoding an in-range signed value on `len > 0` bits and reading it back is the identity. -/
